@@ -53,7 +53,9 @@ func (s *ContextScope) Kill() {
 
 // Stop stop the scope context without error
 func (s *ContextScope) Stop() {
+	verifPoint("stop.enter")
 	s.doneOnce.Do(func() {
+		verifPoint("stop.closing")
 		close(s.done)
 	})
 }
@@ -85,6 +87,7 @@ func (s *ContextScope) AppendError(errs ...error) {
 		i++
 	}
 	s.errorsMU.Unlock()
+	verifPoint("append.stored")
 	if i != 0 {
 		s.Stop()
 	}
